@@ -81,6 +81,7 @@ type Op struct {
 	SidTs      uint64 `json:"sidTs,omitempty"`      // creation timestamp of the sid identity (fixed by the generator so that replays agree)
 	SleepMs    int    `json:"sleepMs,omitempty"`    // wall-clock delay before executing (replica offset)
 	Eth        bool   `json:"eth,omitempty"`
+	Inner      *Op    `json:"inner,omitempty"`      // sim: the transaction executed without being committed
 }
 
 type FaultIn struct {
@@ -180,13 +181,22 @@ func (w *World) runTx(f func(ctx sdk.Context) (M, error)) Result {
 	}()
 	select {
 	case r := <-done:
-		if r.Res == "ok" {
+		if r.Res == "ok" && !w.simulating {
 			write()
 		}
 		return r
 	case <-time.After(w.HangTimeout()):
 		return Result{Res: "hang", Err: "watchdog"}
 	}
+}
+
+// IsTxOp: operations that are transactions (candidates for a non-consensus execution).
+func IsTxOp(k string) bool {
+	switch k {
+	case "advance", "begin", "end", "genesis", "restart", "sim":
+		return false
+	}
+	return true
 }
 
 func firstLines(s string, n int) string {
@@ -285,6 +295,13 @@ func (w *World) runBlocker(f func(ctx sdk.Context)) (res Result) {
 	}
 }
 
+// Restart: crash + restart from the database (new application object over the same DB) and a fresh
+// process image as far as the known package variable goes.
+func (w *World) Restart() {
+	w.C.Restart()
+	resetGlobals()
+}
+
 func (w *World) HangTimeout() time.Duration { return 4 * time.Second }
 
 func okb(p *bool) bool { return p == nil || *p }
@@ -311,6 +328,23 @@ func (w *World) Exec(op *Op) (Result, M) {
 	saoSrv := saokeeper.NewMsgServerImpl(app.SaoKeeper)
 	didSrv := didkeeper.NewMsgServerImpl(app.DidKeeper)
 	switch op.K {
+	case "sim":
+		// a non-consensus execution (CheckTx / gas simulation / a query-side dry run) of a transaction:
+		// the real handler runs on a branch of the state that is never written back. Whatever it leaves
+		// in process memory stays. Its result is not a consensus result and is reported as ok.
+		delete(out, "creator")
+		if op.Inner == nil || !IsTxOp(op.Inner.K) {
+			return Result{Res: "err", Err: "sim needs a transaction"}, out
+		}
+		w.simulating = true
+		ires, iout := w.Exec(op.Inner)
+		w.simulating = false
+		out["inner"] = iout
+		out["simRes"] = ires.Res
+		if ires.Res == "hang" {
+			return ires, out
+		}
+		return Result{Res: "ok"}, out
 	case "advance":
 		// move to another height with a new selection seed; no state change
 		w.C.Height = op.To
@@ -331,7 +365,7 @@ func (w *World) Exec(op *Op) (Result, M) {
 		return res, out
 	case "restart":
 		delete(out, "creator")
-		resetGlobals()
+		w.Restart()
 		return Result{Res: "ok"}, out
 	case "begin":
 		delete(out, "creator")
